@@ -173,6 +173,29 @@ def account_big(ctx, case, stats):
                     stats["big_dismax_hits_beyond_first_window"] += 1
 
 
+def leaf_fields(q, acc):
+    if q["k"] in ("term", "phrase"):
+        acc.add(q.get("f", "body"))
+    for c in q.get("cl", []):
+        leaf_fields(c["q"], acc)
+    for x in q.get("qs", []):
+        leaf_fields(x, acc)
+    if "q" in q:
+        leaf_fields(q["q"], acc)
+    return acc
+
+
+def must_terms_only(q):
+    """a boolean of >= 2 Must term queries and nothing else (TopDocs scores it through the block-max intersection)"""
+    return q["k"] == "bool" and len(q["cl"]) >= 2 and all(c["o"] == "must" and c["q"]["k"] == "term" for c in q["cl"])
+
+
+def fn_of_leaves(t):
+    if t["k"] == "bm25":
+        return [t["fn"]]
+    return [x for a in t.get("args", []) for x in fn_of_leaves(a)]
+
+
 def account(ctx, case, stats):
     """coverage bookkeeping of one accepted case (nothing here is a verdict)"""
     reset = case[0]
@@ -190,7 +213,7 @@ def account(ctx, case, stats):
             stats["merges_after_deletes"] += 1 if with_dels else 0
             if not with_dels and table:
                 m = next(sg for sg in e["segs"] if sg.get("merged"))
-                lens = [len(reset["docs"][d - 1]["toks"]) + reset["docs"][d - 1]["pad"] for d in m["docs"]]
+                lens = [len(fc["toks"]) + fc["pad"] for d in m["docs"] for fc in reset["docs"][d - 1].values()]
                 # the case that tells an exact token count from one recomputed from quantised lengths
                 stats["merges_exact_T_with_non_table_lengths"] += 1 if any(x not in table for x in lens) else 0
         if e["ev"] == "query" and len(e["runs"]) == 3:
@@ -205,6 +228,17 @@ def account(ctx, case, stats):
         n_docs = e["runs"][0]["N"]
         ctx.distinct(base + json.dumps(e["q"], sort_keys=True), nontrivial=bool(hits) and n_docs >= 2)
         stats["queries"] += 1
+        qf = leaf_fields(e["q"], set())
+        if len(qf) >= 2:
+            stats["cross_field_queries"] += 1
+            if must_terms_only(e["q"]):
+                stats["cross_field_conjunctions_of_terms"] += 1
+            for r in e["runs"]:
+                # hits whose scoring clauses sit in fields of different field-norm buckets
+                x = [h for h in r["hits"] if leaves(h["term"]) >= 2 and len(set(fn_of_leaves(h["term"]))) >= 2]
+                stats["cross_field_hits"] += len(x)
+                docs = {h["doc"] for h in x}
+                stats["cross_field_topdocs_scores"] += sum(1 for t in r["tops"] for y in t["res"] if y["doc"] in docs)
         for k in kinds(e["q"], set()):
             stats["kind_" + k] = stats.get("kind_" + k, 0) + 1
         for r in e["runs"]:
@@ -214,7 +248,7 @@ def account(ctx, case, stats):
                 for key in ("coll", "kernel", "expl"):
                     if key in h and int(h[key]["b"]) != bits(h[key]):
                         raise vlib.ToolError("harness: score words and decimal bit string disagree")
-                stats["fnids"].add(h["fnid"])
+                stats["fnids"].update(h["fnid"].values())
                 if leaves(h["term"]) == 1:
                     stats["hits_single_clause"] += 1
                 else:
@@ -304,6 +338,8 @@ def validate(ctx, events, label, cfg=None, stats=None, max_rounds=10):
 def model_checking(ctx):
     vlib.mc_check(ctx, "MC_Bm25Struct", "MC_Bm25Struct_negseg.cfg", expect_violation="ScoreSegmentationIndependent", timeout=300, workers=6)
     vlib.mc_check(ctx, "MC_Bm25Struct", "MC_Bm25Struct_negdel.cfg", expect_violation="ScoreSegmentationIndependentEvenWithDeletes", timeout=300, workers=6)
+    vlib.mc_check(ctx, "MC_Bm25Struct", "MC_Bm25Struct_negfield.cfg", expect_violation="CrossFieldLemma", timeout=300, workers=6)
+    vlib.mc_check(ctx, "MC_Bm25Struct", "MC_Bm25Struct_fields.cfg", timeout=300, workers=6)
     vlib.mc_check(ctx, "MC_Bm25Struct", "MC_Bm25Struct.cfg", timeout=300, workers=6)
     delcfg = "MC_Bm25Struct_delq.cfg" if ctx.quick else "MC_Bm25Struct_del.cfg"     # quick: documents of length <= 1
     r = vlib.mc_check(ctx, "MC_Bm25Struct", delcfg, timeout=300, workers=6, coverage=True)
@@ -368,6 +404,44 @@ def concretise_corpus(c, rng):
     return docs
 
 
+FIELDS3 = ["f1", "f2", "f3"]
+
+
+def assign_fields(q, rng):
+    """every term / phrase leaf gets one of the three scored fields"""
+    q = dict(q)
+    if q["k"] in ("term", "phrase"):
+        q["f"] = rng.choice(FIELDS3)
+    if "cl" in q:
+        q["cl"] = [{"o": c["o"], "q": assign_fields(c["q"], rng)} for c in q["cl"]]
+    if "qs" in q:
+        q["qs"] = [assign_fields(x, rng) for x in q["qs"]]
+    if "q" in q:
+        q["q"] = assign_fields(q["q"], rng)
+    return q
+
+
+def multi_field(case, rng):
+    """the TLC-generated corpus spread over three scored fields of very different lengths (different field-norm buckets): f1 = the
+    generated tokens (0..2), f2 = the same tokens reversed, padded to 30..300 tokens, f3 = rotated, padded to 5..40; the generated query
+    trees with a field per leaf, and conjunctions of Must term queries of different fields (block-max intersection in TopDocs)"""
+    docs = []
+    for d in case["docs"]:
+        toks = d["toks"]
+        docs.append({"f1": {"toks": toks, "pad": 0}, "f2": {"toks": toks[::-1], "pad": rng.choice([30, 41, 57, 100, 101, 255, 300])},
+                     "f3": {"toks": toks[1:] + toks[:1], "pad": rng.randint(5, 40)}})
+    ft = lambda f, w: {"k": "term", "w": w, "f": f}
+    must = lambda q: {"o": "must", "q": q}
+    x, y, z = (rng.choice(["a", "b"]) for _ in range(3))
+    cross = [{"k": "bool", "cl": [must(ft("f1", x)), must(ft("f2", y))]},
+             {"k": "bool", "cl": [must(ft("f2", x)), must(ft("f3", y)), must(ft("f1", z))]},
+             {"k": "bool", "cl": [must(ft("f3", x)), must(ft("f1", y)), {"o": "should", "q": ft("f2", z)}]},
+             {"k": "boost", "b": rng.choice(BOOSTS), "q": {"k": "bool", "cl": [must(ft("f2", y)), must(ft("f1", x))]}},
+             {"k": "dismax", "tie": rng.choice(TIES), "qs": [ft("f1", x), ft("f2", x), {"k": "bool", "cl": [must(ft("f3", y)), must(ft("f2", z))]}]}]
+    case.update({"fields": FIELDS3, "docs": docs, "queries": cross + [assign_fields(q, rng) for q in case["queries"][:5]], "ks": [1, 3, 10, 1000]})
+    return case
+
+
 def replay_generated(ctx, stats):
     rng = random.Random(ctx.seed)
     if ctx.quick:
@@ -385,8 +459,9 @@ def replay_generated(ctx, stats):
         # the merge applied afterwards to the many-segment index: one of the sets TLC listed (9 of 10 cases)
         several = [m for m in c["merges"] if len(m) >= 2]
         merge = [] if rng.random() >= 0.9 else rng.choice(several if several and rng.random() < 0.8 else c["merges"])
-        cases.append({"tag": f"gen-{i}", "filler": "z", "vocab": ["a", "b", "c"], "docs": concretise_corpus(c, rng),
-                      "cuts": c["cuts"], "dels": c["dels"], "merge": merge, "queries": qs, "ks": [1, 2, 1000]})
+        case = {"tag": f"gen-{i}", "filler": "z", "vocab": ["a", "b", "c"], "docs": concretise_corpus(c, rng),
+                "cuts": c["cuts"], "dels": c["dels"], "merge": merge, "queries": qs, "ks": [1, 2, 1000]}
+        cases.append(multi_field(case, rng) if i % 3 == 2 else case)
     hp = ctx.path("gen_cases.ndjson")
     vlib.write_ndjson(hp, cases)
     n_ok = 0
@@ -673,7 +748,42 @@ def binding_selftest(ctx, events, big_events=None):
             break
     if not picked:
         raise vlib.ToolError("binding self-test: no suitable accepted case")
+
+    def cross_hit(e):
+        """a hit of the many-segment run whose term has two bm25 leaves with different field-norm ids and statistics"""
+        if e["ev"] != "query" or not e["runs"][0]["tops"]:
+            return None
+        for h in e["runs"][0]["hits"]:
+            t = h["term"]
+            if t["k"] == "sum" and len(t["args"]) == 2 and all(a["k"] == "bm25" for a in t["args"]) and t["args"][0]["fn"] != t["args"][1]["fn"]:
+                return h
+        return None
+
+    cross_case = next((c for c in cases if len(c[0].get("fields", [])) > 1 and all(e["ev"] in ("reset", "index", "query") for e in c)
+                       and any(cross_hit(e) for e in c)), None)
+    if cross_case is None:
+        if not ctx.violations:
+            raise vlib.ToolError("binding self-test: no accepted multi-field case with a cross-field hit")
+    else:
+        picked.append(cross_case)
     base = header + [e for c in picked for e in c]
+
+    def m_cross_fieldnorm(tr):
+        h = next(cross_hit(e) for e in tr if cross_hit(e))
+        a, b = h["term"]["args"]
+        a["fn"], b["fn"] = b["fn"], a["fn"]
+
+    def m_cross_topdocs(tr):
+        e = next(e for e in tr if cross_hit(e))
+        h = cross_hit(e)
+        for t in e["runs"][0]["tops"]:
+            for x in t["res"]:
+                if x["doc"] == h["doc"]:
+                    x["s"]["hi"] += 1
+
+    def m_field_tokens(tr):
+        e = next(e for e in tr if e["ev"] == "query" and len(e["runs"][0]["T"]) > 1)
+        e["runs"][0]["T"]["f2"] += 1
 
     def first_query(tr):
         for e in tr:
@@ -688,7 +798,8 @@ def binding_selftest(ctx, events, big_events=None):
         return t if t["k"] in ("bm25", "const") else leaf_of(t["args"][0])
 
     def m_doc_freq(tr):
-        first_query(tr)["runs"][0]["df"]["a"] += 1
+        df = first_query(tr)["runs"][0]["df"]
+        df[sorted(df)[0]]["a"] += 1
 
     def m_score_word(tr):
         single_hit(first_query(tr))["coll"]["lo"] ^= 1
@@ -698,7 +809,8 @@ def binding_selftest(ctx, events, big_events=None):
         next(x for x in run["tops"][-1]["res"] if leaves(run["hits"][x["i"] - 1]["term"]) == 1)["s"]["lo"] ^= 1
 
     def m_total_tokens(tr):
-        next(e for e in tr if e["ev"] == "index")["segs"][0]["T"] += 1
+        t = next(e for e in tr if e["ev"] == "index")["segs"][0]["T"]
+        t[sorted(t)[-1]] += 1
 
     def m_term_stat(tr):
         h = first_query(tr)["runs"][0]["hits"][0]
@@ -713,7 +825,7 @@ def binding_selftest(ctx, events, big_events=None):
 
     def m_fieldnorm(tr):
         seg = next(e for e in tr if e["ev"] == "index")["segs"][0]
-        seg["fnids"][0] += 1
+        seg["fnids"][sorted(seg["fnids"])[-1]][0] += 1
 
     def m_kernel(tr):
         single_hit(first_query(tr))["kernel"]["hi"] += 1
@@ -722,10 +834,12 @@ def binding_selftest(ctx, events, big_events=None):
         return next(e for e in tr if e["ev"] == "index" and e["ix"] == "merged")
 
     def m_merged_total_tokens(tr):
-        next(sg for sg in merged_index(tr)["segs"] if sg.get("merged"))["T"] -= 1
+        t = next(sg for sg in merged_index(tr)["segs"] if sg.get("merged"))["T"]
+        t[sorted(t)[-1]] -= 1
 
     def m_merged_doc_freq(tr):
-        next(sg for sg in merged_index(tr)["segs"] if sg.get("merged"))["df"]["a"] += 1
+        df = next(sg for sg in merged_index(tr)["segs"] if sg.get("merged"))["df"]
+        df[sorted(df)[0]]["a"] += 1
 
     def m_merged_score(tr):
         e = next(e for e in tr if e["ev"] == "query" and len(e["runs"]) == 3 and any(leaves(h["term"]) == 1 for h in e["runs"][2]["hits"]))
@@ -759,11 +873,13 @@ def binding_selftest(ctx, events, big_events=None):
             ctx.cov["binding_selftest"] = {"skipped": "the base trace contains a reported violation"}
             return
         raise vlib.ToolError("binding self-test: the uncorrupted base trace is not accepted")
-    for name, mut in (("doc_freq_changed", m_doc_freq), ("score_word_flipped", m_score_word), ("topdocs_score_flipped", m_topdocs_score),
+    for name, mut in ((("doc_freq_changed", m_doc_freq), ("score_word_flipped", m_score_word), ("topdocs_score_flipped", m_topdocs_score),
                       ("segment_total_tokens_changed", m_total_tokens), ("kernel_term_statistic_changed", m_term_stat),
                       ("hit_dropped", m_hit_dropped), ("fieldnorm_id_changed", m_fieldnorm), ("kernel_score_changed", m_kernel),
                       ("one_segment_index_scores_flipped", m_single_segment_score), ("merged_total_tokens_changed", m_merged_total_tokens),
-                      ("merged_doc_freq_changed", m_merged_doc_freq), ("merged_index_scores_flipped", m_merged_score)):
+                      ("merged_doc_freq_changed", m_merged_doc_freq), ("merged_index_scores_flipped", m_merged_score))
+                      + ((("cross_field_leaf_fieldnorms_swapped", m_cross_fieldnorm), ("cross_field_topdocs_score_changed", m_cross_topdocs),
+                         ("field_total_tokens_changed", m_field_tokens)) if cross_case else ())):
         tr = json.loads(json.dumps(base))
         mut(tr)
         p = ctx.path(f"selftest_{name}.ndjson")
@@ -784,6 +900,7 @@ def new_stats():
             "topdocs_scores_compared": 0, "segmentation_compared": 0, "cases_with_several_segments": 0,
             "merges": 0, "merges_by_number_of_segments": {}, "merges_leaving_other_segments": 0, "merges_after_deletes": 0,
             "merges_exact_T_with_non_table_lengths": 0, "merged_evaluations": 0, "merged_hits": 0,
+            "cross_field_queries": 0, "cross_field_conjunctions_of_terms": 0, "cross_field_hits": 0, "cross_field_topdocs_scores": 0,
             "big_cases": 0, "big_queries": 0, "big_largest_segment": 0, "big_segments_over_4096": 0, "big_matching_documents": 0,
             "big_sampled_hits": 0, "big_score_histograms": 0, "big_sampled_hits_beyond_first_window": 0,
             "big_dismax_hits_beyond_first_window": 0, "seek_cases": 0, "seek_queries_required_over_union": 0,
@@ -836,6 +953,8 @@ def run(ctx):
         raise vlib.ToolError("an observation path was never compared (TopDocs / explain / several clauses)")
     if not stats["big_dismax_hits_beyond_first_window"] or not stats["big_segments_over_4096"] or not stats["seek_hits_beyond_first_window"]:
         raise vlib.ToolError("big family: no dis-max hit beyond the first 4096-document window was observed")
+    if not stats["cross_field_conjunctions_of_terms"] or not stats["cross_field_topdocs_scores"]:
+        raise vlib.ToolError("no cross-field conjunction with hits in different field-norm buckets went through TopDocs")
     by_n = stats["merges_by_number_of_segments"]
     if not all(by_n.get(k) for k in ("2", "3", "4")) or not stats["merges_after_deletes"] or not stats["merges_leaving_other_segments"] \
             or not stats["merges_exact_T_with_non_table_lengths"]:
